@@ -69,7 +69,9 @@ func (h *History) Add(form Form) {
 		h.forms = h.forms[len(h.forms)-h.limit:]
 		tmp := fmt.Sprintf("%s.tmp", h.filename)
 		verifPoint("history.compact:open:before", tmp)
-		f, err := os.OpenFile(tmp, os.O_APPEND|os.O_CREATE|os.O_WRONLY, 0644)
+		// Truncate, a temporary file left by an interrupted update must not
+		// end up in the history.
+		f, err := os.OpenFile(tmp, os.O_TRUNC|os.O_CREATE|os.O_WRONLY, 0644)
 		if err != nil {
 			panic(err)
 		}
